@@ -1231,6 +1231,10 @@ func WriteMultipartForm(w io.Writer, f *multipart.Form, boundary string) error {
 
 	// marshal values
 	for k, vv := range f.Value {
+		if bytes.ContainsAny(s2b(k), "\r\n") {
+			// The name is written into the part's Content-Disposition header.
+			return fmt.Errorf("cannot write form field %q: the name contains CR or LF", k)
+		}
 		for _, v := range vv {
 			if err := mw.WriteField(k, v); err != nil {
 				return fmt.Errorf("cannot write form field %q value %q: %w", k, v, err)
